@@ -3074,7 +3074,8 @@ impl<const RICE_MAX: u32, I: SignedInteger> ToBitStream for ResidualPartition<RI
 
                 for residual in residuals {
                     let (msb, lsb) = mask(if residual.is_negative() {
-                        (((-*residual).to_u32() - 1) << 1) + 1
+                        // -(r + 1) rather than (-r) - 1: the most negative residual has no negation
+                        ((-residual.wrapping_add(I::ONE)).to_u32() << 1) + 1
                     } else {
                         (*residual).to_u32() << 1
                     });
